@@ -68,6 +68,30 @@ theorem content_setContent (s : S) (o : Nat) (c : List Nat) (i : Nat) :
     ((s.setContent o c).h.obj i).content = if i = o then c else (s.h.obj i).content := by
   rw [setContent_obj]; split <;> rfl
 
+@[simp] theorem kind_setCache (s : S) (o : Nat) (c : List Nat) (i : Nat) :
+    ((s.setCache o c).h.obj i).kind = (s.h.obj i).kind := by
+  rw [setCache_obj]; split
+  · rename_i h; subst h; rfl
+  · rfl
+@[simp] theorem items_setCache (s : S) (o : Nat) (c : List Nat) (i : Nat) :
+    ((s.setCache o c).h.obj i).items = (s.h.obj i).items := by
+  rw [setCache_obj]; split
+  · rename_i h; subst h; rfl
+  · rfl
+@[simp] theorem content_setCache (s : S) (o : Nat) (c : List Nat) (i : Nat) :
+    ((s.setCache o c).h.obj i).content = (s.h.obj i).content := by
+  rw [setCache_obj]; split
+  · rename_i h; subst h; rfl
+  · rfl
+@[simp] theorem weak_setCache (s : S) (o : Nat) (c : List Nat) (i : Nat) :
+    ((s.setCache o c).h.obj i).weak = (s.h.obj i).weak := by
+  rw [setCache_obj]; split
+  · rename_i h; subst h; rfl
+  · rfl
+theorem cache_setCache (s : S) (o : Nat) (c : List Nat) (i : Nat) :
+    ((s.setCache o c).h.obj i).cache = if i = o then c else (s.h.obj i).cache := by
+  rw [setCache_obj]; split <;> rfl
+
 theorem targets_append (a b : List Eff) : targets (a ++ b) = targets a ++ targets b := by
   simp [targets, List.filterMap_append]
 
@@ -75,6 +99,7 @@ theorem targets_append (a b : List Eff) : targets (a ++ b) = targets a ++ target
 @[simp] theorem targets_write (o f : Nat) : targets [.write o f] = [o] := rfl
 @[simp] theorem targets_weakw (o : Nat) : targets [.weakw o] = [o] := rfl
 @[simp] theorem targets_mutate (o : Nat) : targets [.mutate o] = [o] := rfl
+@[simp] theorem targets_cachew (o : Nat) : targets [.cachew o] = [o] := rfl
 
 /-! ### the tracking invariant -/
 
@@ -331,6 +356,46 @@ theorem Trk.setContent {hb : H} {u : Nat} {tr0 : List Eff} {s : S} (T : Trk hb u
       rw [getF_setContent] at hg; rw [kind_setContent]; exact ts.own o' f' v' hf hg
     · intro l x hl hc
       rw [kind_setContent] at hl ⊢; rw [items_setContent] at hc; exact ts.items l x hl hc
+
+/-- a change of the hook value cache of an object that is new or owned by the unit being solved -/
+theorem Trk.setCache {hb : H} {u : Nat} {tr0 : List Eff} {s : S} (T : Trk hb u tr0 s) {o : Nat} {c : List Nat}
+    (ht : hb.next ≤ o ∨ Owned hb u o) (ho : o < s.h.next) : Trk hb u tr0 (s.setCache o c) where
+  wf := T.wf.setCache ho
+  ext := by
+    refine ⟨by simp only [setCache_next]; exact T.ext.next_le, ?_, ?_, ?_, ?_, ?_, ?_⟩
+    · intro o' f' v' ho' hf hg; rw [getF_setCache] at hg; exact T.ext.oldOwn o' f' v' ho' hf hg
+    · intro o' ho'; rw [items_setCache]; exact T.ext.oldItems o' ho'
+    · intro o' ho'; rw [content_setCache]; exact T.ext.oldContent o' ho'
+    · intro o' ho'; rw [kind_setCache]; exact T.ext.kind o' ho'
+    · intro o' f' v' ho' hf hg; rw [getF_setCache] at hg; exact T.ext.newOwn o' f' v' ho' hf hg
+    · intro o' x ho' hc; rw [items_setCache] at hc; exact T.ext.newItems o' x ho' hc
+  tr := by
+    obtain ⟨t, ht', hok⟩ := T.tr
+    refine ⟨t ++ [.cachew o], by simp [ht'], ?_⟩
+    intro x hx
+    rw [targets_append] at hx
+    simp only [targets_cachew, List.mem_append, List.mem_singleton] at hx
+    rcases hx with hx | hx
+    · exact hok x hx
+    · subst hx; exact ht
+  frame := by
+    intro x hx hn
+    rw [setCache_obj]
+    have : x ≠ o := by
+      intro e; subst e
+      rcases ht with h | h
+      · omega
+      · exact hn h
+    simp only [this, if_false]
+    exact T.frame x hx hn
+  typed := by
+    intro tb
+    have ts := T.typed tb
+    constructor
+    · intro o' f' v' hf hg
+      rw [getF_setCache] at hg; rw [kind_setCache]; exact ts.own o' f' v' hf hg
+    · intro l x hl hc
+      rw [kind_setCache] at hl ⊢; rw [items_setCache] at hc; exact ts.items l x hl hc
 
 /-- a write target reached through an ownership entry of the unit being solved is owned or new -/
 theorem Trk.ownTarget {hb : H} {u : Nat} {tr0 : List Eff} {s : S} (T : Trk hb u tr0 s) (hu : u < hb.next)
